@@ -135,7 +135,7 @@ def run(item):
     if not mut and cfg.method == 'MS' and cfg.intg == 'rk' and spec.ode is not None and time_dependent(spec) and item.get('twin', True):
         ch2 = Checker(inst, timeout_ms=10000)
         refm = multi(inst, lambda tr: ref.gap_atoms(tr, mut='c3'))
-        _, un_ref2, _ = ch2.match(refm, impl_atoms(inst))
+        _, un_ref2, _ = ch2.match(refm, impl_atoms(inst), far=False)
         if un_ref2:
             twins_ok += 1
         else:
